@@ -21,6 +21,9 @@ CHECKS.update({
  "C13": ("fault_enumeration", "E1 (issuance, planted reserved names)", "exhaustive fault enumeration: reserved name planted at every object node of every tree x values x strategies x formats, with look-alike controls",
    "For every tree of S(4,3) (thorough S(5,4)), every object node, name in {_sd, ...}, 7 values, first/last position, 5 strategies, 2 formats: issuance must return Err; the unplanted tree and 8 look-alike names must be issued.",
    "refusal observed as Err from issue_sd_jwt", "4 C13"),
+ "C16": ("exploration", "E1 pipeline in the mock_salts build (worker subprocesses)", "exhaustive enumeration of claim trees x strategies x formats x salt-queue slack in the deterministic-salt build, one case at a time per process (SALTS is process-global)",
+   "For every (tree, strategy, format, slack r in {0,1,5}): salts in the output == first k of the queue in order and SALTS keeps exactly the last r; two runs give byte-identical strings (HS256, EdDSA) / identical payload+disclosures (ES256); the full C05 oracle and the issue->present->verify round trip (select all / none, decoys off and on) hold. Quick S(4,3)+alphabets on S(2,2)+chains; thorough S(5,4)+alphabets on S(3,3).",
+   "holds for the mock_salts compilation only; salt queues of distinct base64url strings", "4 C16"),
 })
 NOT_YET = {}
 def main():
